@@ -51,6 +51,8 @@ def gen_scripts(r, n):
                     sc.append(('S', i, 'r', 10 * MS, 'fcx'[i % 3]) if c == 'S' else ('E', 'fx'[i % 2]) if c == 'E' else ('L', 'max', 'f'))
                 sc += [('T', 40 * MS), ('CO',), ('S', 9, 'r', 10 * MS, 'f'), ('F', 0, 'g')]
                 cases.append((dict(base, mt=0), sc))
+    # the transmit side: shutdown / disable / requests queued behind a write the transport does not take
+    cases += [c for c, _ in cl.gen_parked(r)]
     w = {'S': 4, 'T': 5, 'E': 4, 'D': 3, 'L': 0.3, 'H': 0.5, 'A': 0.15, 'X': 0.7, 'W': 0.3, 'V': 0.1,
          'CO': 5, 'CE': 4, 'F': 2, 'P': 0.3, 'Q': 1, 'G': 1, 'Z': 2, 'R': 1}
     while len(cases) < n:
